@@ -407,3 +407,350 @@ Section Outcome.
     destruct merge_prog_class as [A B C|A B C D|A B C D E|A B C D E]; rewrite ?C, ?D, ?E; simpl; rewrite ?A, ?B; simpl; auto.
   Qed.
 End Outcome.
+
+(* ------------------------------------------------------------------ *)
+(* reading the outcome predicates                                       *)
+
+Lemma split_update_spec : forall tr pre ws ds post,
+  split_update tr = Some (pre, (ws, ds), post) ->
+  tr = pre ++ Ev (KUpdate ws ds) true :: post /\ existsb is_update_ok pre = false.
+Proof.
+  induction tr as [|e t IH]; intros pre ws ds post; [discriminate|].
+  assert (Hrec : match split_update t with
+                 | Some (pre0, u, post0) => Some (e :: pre0, u, post0)
+                 | None => None
+                 end = Some (pre, (ws, ds), post) ->
+                 is_update_ok e = false ->
+                 e :: t = pre ++ Ev (KUpdate ws ds) true :: post /\ existsb is_update_ok pre = false).
+  { destruct (split_update t) as [[[p [ws' ds']] q]|] eqn:S; [|discriminate].
+    intros H Hu; inversion H; subst. destruct (IH _ _ _ _ eq_refl) as [-> E'].
+    split; [reflexivity|simpl; rewrite Hu, E'; reflexivity]. }
+  destruct e as [k ok]; destruct k; cbn [split_update e_call e_ok];
+    try (intro H; apply Hrec; [exact H|unfold is_update_ok; simpl; apply andb_false_r]).
+  destruct ok.
+  - intro H; inversion H; subst. split; reflexivity.
+  - intro H; apply Hrec; [exact H|reflexivity].
+Qed.
+
+(* what "committed" says, position by position *)
+Lemma committedb_spec tr :
+  committedb tr = true ->
+  exists pre ws ds post,
+    tr = pre ++ Ev (KUpdate ws ds) true :: post /\
+    existsb is_update_ok pre = false /\ existsb is_update_ok post = false /\
+    (forall o, In o (created tr) -> In o ws) /\                       (* every output handed out is referenced *)
+    (forall o, In o ws -> In o (created pre) /\ closed_ok pre o = true) /\   (* and was published before the Update *)
+    (forall e, In e tr -> touches_cleanup ws e = false) /\            (* no output is ever aborted or tombstoned *)
+    (forall e, In e pre -> touches_cleanup ds e = false) /\           (* no source is tombstoned before the Update *)
+    (forall d, In d ds -> tomb_attempted post d = true).               (* every source is tombstoned after it *)
+Proof.
+  unfold committedb. destruct (split_update tr) as [[[pre [ws ds]] post]|] eqn:S; [|discriminate].
+  destruct (split_update_spec _ _ _ _ _ S) as [E Hpre]. intro H.
+  apply andb_true_iff in H as [H K7]. apply andb_true_iff in H as [H K6]. apply andb_true_iff in H as [H K5].
+  apply andb_true_iff in H as [H K4]. apply andb_true_iff in H as [H K3]. apply andb_true_iff in H as [K1 K2].
+  apply negb_true_iff in K1, K5, K6. unfold incl_z in K2, K3. rewrite forallb_forall in K2, K3, K4, K7.
+  exists pre, ws, ds, post. split; [exact E|]. split; [exact Hpre|]. split; [exact K1|].
+  split; [intros o Ho; apply mem_z_In; apply K2; exact Ho|].
+  split; [intros o Ho; split; [apply mem_z_In; apply K3; exact Ho|apply K4; exact Ho]|].
+  split.
+  { intros e He. destruct (touches_cleanup ws e) eqn:T; [|reflexivity].
+    assert (X : existsb (touches_cleanup ws) tr = true) by (apply existsb_exists; exists e; auto). congruence. }
+  split.
+  { intros e He. destruct (touches_cleanup ds e) eqn:T; [|reflexivity].
+    assert (X : existsb (touches_cleanup ds) pre = true) by (apply existsb_exists; exists e; auto). congruence. }
+  intros d Hd. apply K7. exact Hd.
+Qed.
+
+Lemma abortedb_spec tr :
+  abortedb tr = true ->
+  existsb is_update_ok tr = false /\ forall o, In o (created tr) -> cleanup_attempted tr o = true.
+Proof.
+  unfold abortedb. intro H. apply andb_true_iff in H as [H1 H2]. split; [apply negb_true_iff; exact H1|].
+  intros o Ho. apply (proj1 (forallb_forall _ _) H2 o Ho).
+Qed.
+
+(* ------------------------------------------------------------------ *)
+(* what the MetaStore shows                                            *)
+
+(* MemoryMetaStore: nothing changes except at a successful Update *)
+Lemma vis_memory_stable outf st tr :
+  existsb is_update_ok tr = false -> vis_after MSMemory outf st tr = st.
+Proof.
+  unfold vis_after. revert st. induction tr as [|e t IH]; intros st; simpl; [reflexivity|].
+  intro H. apply orb_false_iff in H as [H1 H2]. rewrite <- (IH st H2) at 2. f_equal.
+  unfold vis_step, is_update_ok in *. destruct (e_ok e); simpl in *; [|reflexivity].
+  destruct (e_call e); try reflexivity. discriminate.
+Qed.
+
+Lemma vis_after_app k outf st a b : vis_after k outf st (a ++ b) = vis_after k outf (vis_after k outf st a) b.
+Proof. unfold vis_after. apply fold_left_app. Qed.
+
+Lemma vis_memory_committed outf st pre ws ds post :
+  existsb is_update_ok pre = false -> existsb is_update_ok post = false ->
+  vis_after MSMemory outf st (pre ++ Ev (KUpdate ws ds) true :: post) = ms_update (map outf ws) ds st.
+Proof.
+  intros H1 H2. rewrite vis_after_app, (vis_memory_stable _ _ _ H1).
+  change (Ev (KUpdate ws ds) true :: post) with ([Ev (KUpdate ws ds) true] ++ post).
+  rewrite vis_after_app. rewrite (vis_memory_stable _ _ _ H2). reflexivity.
+Qed.
+
+Lemma remove_ptrs_app ds a b : remove_ptrs ds (a ++ b) = remove_ptrs ds a ++ remove_ptrs ds b.
+Proof. unfold remove_ptrs. apply filter_app. Qed.
+
+(* with fresh, pairwise distinct output pointers an Update is: drop the sources, add the outputs *)
+Lemma ms_update_fresh outf ws ds st :
+  (forall w, In w ws -> f_ptr (outf w) = w) -> NoDup ws ->
+  (forall w, In w ws -> ~ In w (map f_ptr st)) -> (forall w, In w ws -> ~ In w ds) ->
+  ms_update (map outf ws) ds st = remove_ptrs ds st ++ map outf ws.
+Proof.
+  intros Hp Hn Hf Hd. unfold ms_update.
+  assert (G : forall ws st, (forall w, In w ws -> f_ptr (outf w) = w) -> NoDup ws ->
+                            (forall w, In w ws -> ~ In w (map f_ptr st)) ->
+                            fold_left (fun s w => set_file w s) (map outf ws) st = st ++ map outf ws).
+  { clear. induction ws as [|w ws IH]; intros st Hp Hn Hf; simpl; [rewrite app_nil_r; reflexivity|].
+    inversion Hn as [|? ? Hnw Hn']; subst.
+    assert (E : set_file (outf w) st = st ++ [outf w]).
+    { unfold set_file. rewrite (Hp w (or_introl eq_refl)).
+      destruct (mem_z w (map f_ptr st)) eqn:M; [|reflexivity]. apply mem_z_In in M. destruct (Hf w (or_introl eq_refl) M). }
+    rewrite E, IH.
+    - rewrite <- app_assoc. reflexivity.
+    - intros; apply Hp; simpl; auto.
+    - exact Hn'.
+    - intros x Hx Hin. rewrite map_app in Hin. apply in_app_or in Hin as [Hin|Hin].
+      + apply (Hf x (or_intror Hx) Hin).
+      + simpl in Hin. destruct Hin as [Hin|[]]. rewrite (Hp w (or_introl eq_refl)) in Hin. subst. contradiction. }
+  rewrite (G ws st Hp Hn Hf), remove_ptrs_app. f_equal.
+  unfold remove_ptrs. apply filter_all_true. intros f Hf'. apply in_map_iff in Hf' as [w [<- Hw]].
+  apply negb_true_iff. apply mem_z_false. rewrite (Hp w Hw). apply Hd. exact Hw.
+Qed.
+
+Lemma nothingb_no_update tr : nothingb tr = true -> existsb is_update_ok tr = false.
+Proof.
+  unfold nothingb. destruct tr as [|e [|e' t]]; try discriminate. intro H. simpl.
+  unfold is_update_ok. destruct (e_call e); rewrite ?andb_false_r in *; try discriminate; reflexivity.
+Qed.
+
+(* ------------------------------------------------------------------ *)
+(* shape of a run: the only Update is Update(all outputs, all grouped sources)  *)
+
+Section Shape.
+  Variable fo : oracle.
+  Variable has_abort : bool.
+  Variable outp : nat -> Z.
+  Variable groups : list group.
+
+  Definition the_outs : list Z := outs_from outp 0 (length groups).
+  Definition the_dels : list Z := flat_map g_srcs groups.
+
+  Lemma merge_prog_shape :
+    let tr := fst (merge_prog fo has_abort outp groups) in
+    forallb not_update tr = true \/
+    exists pre ok post,
+      tr = pre ++ Ev (KUpdate the_outs the_dels) ok :: post /\
+      forallb not_update pre = true /\ forallb not_update post = true /\ forallb is_tomb_ev post = true.
+  Proof.
+    cbv zeta. unfold merge_prog. destruct (fo 0%nat); [left; reflexivity|].
+    destruct (run_groups fo has_abort outp 0 groups [] 1%nat) as [[[tr ok] done] n] eqn:R.
+    pose proof (run_groups_spec _ _ _ _ _ _ _ _ _ _ _ R) as S. destruct ok; simpl negb; cbv iota.
+    - destruct S as [-> [S1 _ _ _]]. simpl app. fold the_outs.
+      destruct the_outs as [|o outs] eqn:Eo; [left; simpl; exact S1|].
+      right. fold the_dels. destruct (fo n).
+      + destruct (tomb_all fo (S n) (o :: outs)) as [[trc oks] n2] eqn:T. simpl.
+        destruct (tomb_all_spec _ _ _ _ _ _ T) as [T1 _].
+        exists (Ev KIter true :: tr), false, trc. split; [reflexivity|]. split; [simpl; exact S1|].
+        split; [eapply forallb_impl; [apply tomb_not_update|exact T1]|exact T1].
+      + destruct (tomb_all fo (S n) the_dels) as [[trt oks] n2] eqn:T. simpl.
+        destruct (tomb_all_spec _ _ _ _ _ _ T) as [T1 _].
+        exists (Ev KIter true :: tr), true, trt. split; [reflexivity|]. split; [simpl; exact S1|].
+        split; [eapply forallb_impl; [apply tomb_not_update|exact T1]|exact T1].
+    - destruct S as [S1 _]. left. simpl. exact S1.
+  Qed.
+
+  (* C12: whatever Update merge() issues deletes exactly the grouped files and writes exactly
+     the outputs of the groups *)
+  Lemma merge_prog_update_args ws ds ok :
+    In (Ev (KUpdate ws ds) ok) (fst (merge_prog fo has_abort outp groups)) -> ws = the_outs /\ ds = the_dels.
+  Proof.
+    intro Hin. destruct merge_prog_shape as [H|[pre [ok' [post [E [H1 [H2 _]]]]]]].
+    - rewrite forallb_forall in H. specialize (H _ Hin). discriminate.
+    - rewrite E in Hin. apply in_app_or in Hin as [Hin|[Hin|Hin]].
+      + rewrite forallb_forall in H1. specialize (H1 _ Hin). discriminate.
+      + inversion Hin; subst. auto.
+      + rewrite forallb_forall in H2. specialize (H2 _ Hin). discriminate.
+  Qed.
+
+  (* C13, MemoryMetaStore: at every point of every run the visible content is the content
+     before the merge, until the one successful Update; from then on it is the old content
+     minus the grouped sources plus the outputs. *)
+  Lemma merge_memory_visibility outf st :
+    (forall w, In w the_outs -> f_ptr (outf w) = w) -> NoDup the_outs ->
+    (forall w, In w the_outs -> ~ In w (map f_ptr st)) -> (forall w, In w the_outs -> ~ In w the_dels) ->
+    let tr := fst (merge_prog fo has_abort outp groups) in
+    forall t1 t2, tr = t1 ++ t2 ->
+      vis_after MSMemory outf st t1 = st \/
+      (committedb tr = true /\ existsb is_update_ok t1 = true /\
+       vis_after MSMemory outf st t1 = remove_ptrs the_dels st ++ map outf the_outs).
+  Proof.
+    intros Hp Hn Hf Hd. cbv zeta. intros t1 t2 E.
+    destruct (existsb is_update_ok t1) eqn:U; [|left; apply vis_memory_stable; exact U].
+    right.
+    assert (Hcls : run_class (fst (merge_prog fo has_abort outp groups)) (snd (merge_prog fo has_abort outp groups))).
+    { apply merge_prog_class. exact Hd. }
+    assert (Hup : existsb is_update_ok (fst (merge_prog fo has_abort outp groups)) = true).
+    { rewrite E, existsb_app, U. reflexivity. }
+    assert (Hc : committedb (fst (merge_prog fo has_abort outp groups)) = true).
+    { destruct Hcls as [A B C|A B C D|A B C D F|A B C D F]; auto.
+      - rewrite (nothingb_no_update _ A) in Hup. discriminate.
+      - apply abortedb_spec in A as [A _]. congruence. }
+    split; [exact Hc|]. split; [reflexivity|].
+    destruct merge_prog_shape as [H|[pre [ok [post [E' [H1 [H2 _]]]]]]].
+    { rewrite (no_update_ok _ H) in Hup. discriminate. }
+    destruct ok.
+    2:{ rewrite E', existsb_app in Hup. simpl in Hup. rewrite (no_update_ok _ H1), (no_update_ok _ H2) in Hup. discriminate. }
+    (* t1 extends beyond the Update *)
+    rewrite E' in E.
+    assert (Hsplit : exists post1, t1 = pre ++ Ev (KUpdate the_outs the_dels) true :: post1 /\ existsb is_update_ok post1 = false).
+    { clear - E U H1 H2. revert t1 E U. induction pre as [|e pre IH]; intros t1 E U.
+      - destruct t1 as [|e1 t1]; [simpl in U; discriminate|]. simpl in E. inversion E; subst.
+        exists t1. split; [reflexivity|].
+        assert (G : existsb is_update_ok (t1 ++ t2) = false) by (apply no_update_ok; exact H2).
+        rewrite existsb_app in G. apply orb_false_iff in G. apply G.
+      - destruct t1 as [|e1 t1]; [simpl in U; discriminate|]. simpl in E. inversion E; subst.
+        simpl in H1. apply andb_true_iff in H1 as [A B].
+        simpl in U. assert (Ue : is_update_ok e1 = false).
+        { unfold is_update_ok, not_update in *. destruct (e_call e1); try discriminate; apply andb_false_r. }
+        rewrite Ue in U. simpl in U. destruct (IH B t1 H3 U) as [p1 [-> Hp1]]. exists p1. auto. }
+    destruct Hsplit as [post1 [-> Hp1]].
+    rewrite vis_memory_committed; [|apply no_update_ok; exact H1|exact Hp1].
+    apply ms_update_fresh; assumption.
+  Qed.
+End Shape.
+
+(* ------------------------------------------------------------------ *)
+(* single flight                                                        *)
+
+Definition sf_caller (e : sfev) : nat :=
+  match e with SfTry c => c | SfCall c => c | SfRet c _ => c end.
+
+(* exactly the lock holder is inside merge() *)
+Definition sf_inv (s : sfst) : Prop :=
+  forall c, pc_of c (sf_pcs s) = Some PRun <-> sf_holder s = Some c.
+
+Lemma pc_of_del c c' l : pc_of c (pc_del c' l) = if Nat.eqb c c' then None else pc_of c l.
+Proof.
+  unfold pc_del. induction l as [|[x p] t IH]; simpl; [destruct (Nat.eqb c c'); reflexivity|].
+  destruct (Nat.eqb c' x) eqn:E1; simpl.
+  - apply Nat.eqb_eq in E1. subst x. rewrite IH. destruct (Nat.eqb c c') eqn:E2; reflexivity.
+  - rewrite IH. destruct (Nat.eqb c x) eqn:E2; [|reflexivity].
+    apply Nat.eqb_eq in E2. subst x. rewrite Nat.eqb_sym, E1. reflexivity.
+Qed.
+
+Lemma sf_step_inv s e s' : sf_inv s -> sf_step s e = Some s' -> sf_inv s'.
+Proof.
+  intros Hi. destruct e as [c|c|c ip]; simpl.
+  - destruct (pc_of c (sf_pcs s)) eqn:P; [discriminate|]. destruct (sf_holder s) as [h|] eqn:Hh;
+      intro H; inversion H; subst; clear H; intro c0; cbn [sf_pcs sf_holder pc_of];
+      destruct (Nat.eqb c0 c) eqn:E.
+    + apply Nat.eqb_eq in E. subst c0. split; [discriminate|].
+      intro Hc. rewrite <- Hh in Hc. apply Hi in Hc. congruence.
+    + rewrite (Hi c0), Hh. reflexivity.
+    + apply Nat.eqb_eq in E. subst c0. split; reflexivity.
+    + apply Nat.eqb_neq in E. rewrite (Hi c0), Hh. split; [discriminate|]. intro Hc; inversion Hc; congruence.
+  - destruct (pc_of c (sf_pcs s)) as [[|]|]; try discriminate. intro H; inversion H; subst. exact Hi.
+  - destruct (pc_of c (sf_pcs s)) as [[|]|] eqn:P; destruct ip; try discriminate; intro H; inversion H; subst; clear H;
+      intro c0; cbn [sf_pcs sf_holder]; rewrite pc_of_del; destruct (Nat.eqb c0 c) eqn:E.
+    + split; discriminate.
+    + apply Nat.eqb_neq in E. split; [|discriminate]. intro Hc. apply Hi in Hc. apply Hi in P. congruence.
+    + apply Nat.eqb_eq in E. subst c0. split; [discriminate|]. intro Hc. apply Hi in Hc. congruence.
+    + apply Hi.
+Qed.
+
+Lemma sf_replay_inv : forall l s s', sf_inv s -> sf_replay s l = Some s' -> sf_inv s'.
+Proof.
+  induction l as [|e t IH]; intros s s' Hi; simpl.
+  - intro H; inversion H; subst. exact Hi.
+  - destruct (sf_step s e) as [s1|] eqn:E; [|discriminate]. apply IH. eapply sf_step_inv; eauto.
+Qed.
+
+Lemma sf_init_inv : sf_inv sf_init.
+Proof. intro c. simpl. split; discriminate. Qed.
+
+(* mutual exclusion: a store call of merge() is made by the lock holder only *)
+Lemma sf_call_by_holder l s c s' :
+  sf_replay sf_init l = Some s -> sf_step s (SfCall c) = Some s' -> sf_holder s = Some c.
+Proof.
+  intros Hr. pose proof (sf_replay_inv _ _ _ sf_init_inv Hr) as Hi. simpl.
+  destruct (pc_of c (sf_pcs s)) as [[|]|] eqn:P; try discriminate. intros _. apply Hi. exact P.
+Qed.
+
+Lemma sf_step_other s e s' c : sf_caller e <> c -> sf_step s e = Some s' -> pc_of c (sf_pcs s') = pc_of c (sf_pcs s).
+Proof.
+  destruct e as [x|x|x ip]; simpl; intro Hne.
+  - destruct (pc_of x (sf_pcs s)); [discriminate|]. destruct (sf_holder s); intro H; inversion H; subst; simpl;
+      destruct (Nat.eqb c x) eqn:E; try reflexivity; apply Nat.eqb_eq in E; congruence.
+  - destruct (pc_of x (sf_pcs s)) as [[|]|]; try discriminate. intro H; inversion H; subst. reflexivity.
+  - destruct (pc_of x (sf_pcs s)) as [[|]|]; destruct ip; try discriminate; intro H; inversion H; subst; simpl;
+      rewrite pc_of_del; destruct (Nat.eqb c x) eqn:E; try reflexivity; apply Nat.eqb_eq in E; congruence.
+Qed.
+
+Lemma sf_replay_other : forall l s s' c,
+  (forall e, In e l -> sf_caller e <> c) -> sf_replay s l = Some s' -> pc_of c (sf_pcs s') = pc_of c (sf_pcs s).
+Proof.
+  induction l as [|e t IH]; intros s s' c Hne; simpl.
+  - intro H; inversion H; reflexivity.
+  - destruct (sf_step s e) as [s1|] eqn:E; [|discriminate]. intro H.
+    rewrite (IH s1 s' c); [|intros; apply Hne; simpl; auto|exact H].
+    eapply sf_step_other; eauto. apply Hne. simpl. auto.
+Qed.
+
+(* C13: a Merge that starts (TryLock) while another one holds the lock can do exactly one
+   thing next: return ErrMergeInProgress.  In particular it performs no store call. *)
+Lemma sf_overlap_refused l s c1 c2 s2 t2 s3 e s4 :
+  sf_replay sf_init l = Some s -> sf_holder s = Some c1 ->
+  sf_step s (SfTry c2) = Some s2 ->
+  sf_replay s2 t2 = Some s3 -> (forall x, In x t2 -> sf_caller x <> c2) ->
+  sf_caller e = c2 -> sf_step s3 e = Some s4 ->
+  e = SfRet c2 true.
+Proof.
+  intros Hr Hh Ht Hr2 Hne Hc He.
+  assert (P2 : pc_of c2 (sf_pcs s2) = Some PRefused).
+  { simpl in Ht. destruct (pc_of c2 (sf_pcs s)); [discriminate|]. rewrite Hh in Ht. inversion Ht; subst. simpl.
+    rewrite Nat.eqb_refl. reflexivity. }
+  assert (P3 : pc_of c2 (sf_pcs s3) = Some PRefused).
+  { rewrite (sf_replay_other _ _ _ c2 Hne Hr2). exact P2. }
+  destruct e as [x|x|x ip]; simpl in Hc; subst x; simpl in He; rewrite P3 in He; try discriminate.
+  destruct ip; [reflexivity|discriminate].
+Qed.
+
+(* ------------------------------------------------------------------ *)
+(* FileSystemDataStore used as MetaStore (D3): the same program, the other visibility  *)
+
+Definition wfile (p : Z) : file := {| f_ptr := p; f_blocks := []; f_fparam := 0; f_ents := [] |}.
+Definition w_groups : list group :=
+  [ {| g_srcs := [1; 2]; g_body := [BOpen 1; BRead 1; BOpen 2; BRead 2; BWrite] |};
+    {| g_srcs := [3; 4]; g_body := [BOpen 3; BRead 3; BOpen 4; BRead 4; BWrite] |} ].
+Definition w_outp (i : nat) : Z := 100 + Z.of_nat i.
+Definition w_store : list file := map wfile [1; 2; 3; 4].
+
+(* between the first output's Close and the Update both the sources and the output are visible *)
+Lemma fs_visible_twice_witness :
+  let tr := fst (merge_prog (fun _ => false) true w_outp w_groups) in
+  exists t1 t2, tr = t1 ++ t2 /\ existsb is_update_ok t1 = false /\
+    map f_ptr (vis_after MSFs wfile w_store t1) = [1; 2; 3; 4; 100] /\
+    map f_ptr (vis_after MSMemory wfile w_store t1) = [1; 2; 3; 4].
+Proof.
+  cbv zeta. exists (firstn 8 (fst (merge_prog (fun _ => false) true w_outp w_groups))),
+                   (skipn 8 (fst (merge_prog (fun _ => false) true w_outp w_groups))).
+  split; [symmetry; apply firstn_skipn|]. vm_compute. auto.
+Qed.
+
+(* a read fault in the second group plus a failing cleanup tombstone: Merge returns an error,
+   yet the first group's output stays visible next to its sources *)
+Definition w_fault (n : nat) : bool := Nat.eqb n 10 || Nat.eqb n 13.
+
+Lemma fs_orphan_output_witness :
+  let r := merge_prog w_fault true w_outp w_groups in
+  snd r = RetErr /\ abortedb (fst r) = true /\
+  map f_ptr (vis_after MSFs wfile w_store (fst r)) = [1; 2; 3; 4; 100] /\
+  map f_ptr (vis_after MSMemory wfile w_store (fst r)) = [1; 2; 3; 4].
+Proof. vm_compute. auto. Qed.
